@@ -127,6 +127,8 @@ class HTMLScraper(HTMLReader, BaseHTMLScraper):
 
         scrape_result = ScrapeResult(link_contexts, encoding)
         scrape_result['base_url'] = base_url
+        scrape_result['robots_no_follow'] = bool(
+            result_meta_info.get('robots_no_follow'))
         return scrape_result
 
     def _process_elements(self, elements, response, base_url, link_contexts):
